@@ -71,6 +71,8 @@ def names(case, scheme="plain"):
         return ["S", "a", "b"][:v], TER_NAMES[:t]
     if scheme == "subs":
         return ["S", "S#SUBS#0", "#STARTUNION#"][:v], ["#0UNION#", "#1CONC#", "c"][:t]
+    if scheme == "subs2":     # the fresh name substitute invents for a start-less operand
+        return ["#EMPTY", "#EMPTY#SUBS#0", "#EMPTY#SUBS#1"][:v], ["#0CONC#", "#1CONC#", "c"][:t]
     if scheme == "pda":
         return ["S", "#TERM#a", "#StartCFG#"][:v], TER_NAMES[:t]
     if scheme == "mixedval":  # variable values of different types with one spelling
